@@ -27,6 +27,8 @@ import (
 	"time"
 
 	"git.torproject.org/pluggable-transports/snowflake.git/v2/common/amp"
+	"git.torproject.org/pluggable-transports/snowflake.git/v2/common/ipsetsink"
+	"git.torproject.org/pluggable-transports/snowflake.git/v2/common/ipsetsink/sinkcluster"
 	"git.torproject.org/pluggable-transports/snowflake.git/v2/common/messages"
 	"github.com/prometheus/client_golang/prometheus/promhttp"
 	"verif.local/vstat"
@@ -135,8 +137,18 @@ var defaultBridgeFP = "2B280B23E1107BB62ABFC40DDCC8824814F80A72"
 
 const defaultBridgeURL = "wss://snowflake.torproject.net/"
 
+type memSyncer struct {
+	mu sync.Mutex
+	b  bytes.Buffer
+}
+
+func (m *memSyncer) Write(p []byte) (int, error) { m.mu.Lock(); defer m.mu.Unlock(); return m.b.Write(p) }
+func (m *memSyncer) Sync() error                 { return nil }
+
 func newContext(sc *scenario, metricsOut io.Writer) (*BrokerContext, error) {
 	ctx := NewBrokerContext(log.New(metricsOut, "", 0))
+	// as main() does with -ip-count-log: the distinct-IP recorder is part of the poll path
+	ctx.metrics.SetIPAddressRecorder(sinkcluster.NewClusterWriter(&memSyncer{}, time.Hour, ipsetsink.NewIPSetSink("verif-mask")))
 	if len(sc.Bridges) > 0 || sc.Allowed != "" || sc.Presumed != "" {
 		var b bytes.Buffer
 		bl := sc.Bridges
